@@ -83,7 +83,7 @@ def run(ctx):
         if rec["ops"]:
             ctx.nontrivial(json.dumps([o, n]))
     # ---------------- fragments and filters
-    keys = ["a", "b", "a/b", "k~", "x|y", "s*", "ab"]
+    keys = ["a", "b", "a/b", "k~", "x|y", "s*", "ab", "sx", "x|*", "*"]     # some keys are spelled like glob patterns
 
     def rdoc(depth):
         d = {}
